@@ -9,7 +9,7 @@ BUDGET_S = {"quick": 150, "thorough": 2400}
 RULE = ("Well-nested files generated for every registered suffix (C03's generator) are damaged in exactly one tag: a start or "
         "end tag deleted, duplicated or neutralised (`<block`->`<xblock`, `</block>`->`</xblock>`) at any nesting depth. "
         "The damaged file is placed alone or among 1-5 healthy files (other languages, sub-directories) and examined in scan "
-        "mode, `list` mode and diff mode (whole-file diff naming it; also together with a positional glob that does not match it). Expected: non-zero exit, no panic/signal, stderr "
+        "mode, `list` mode and diff mode (whole-file diff naming it; also together with a positional glob that does not match it); committed files damaged by deleting one tag's whole line, seen through the real `git diff -U0/-U1/-U3`. Expected: non-zero exit, no panic/signal, stderr "
         "names the damaged file's root-relative path; the undamaged file passes (control). A case is one (file, damage, "
         "mode); non-trivial = depth >=2 or >=3 blocks; distinct = hash of (damaged bytes, mode, neighbours).")
 ASSUMPTIONS = ["one damage changes the tag count by one, so the file cannot re-balance by accident",
@@ -25,6 +25,10 @@ def plan(tier, seed):
     for s in langs.ALL_SUFFIXES:
         if s != "swift" and any(f.kind == "line" and f.family != "md" for f in langs.LANGS[langs.SUFFIX_LANG[s]]["forms"]):
             jobs.append({"k": "glued", "suffix": s, "seed": seed})
+    for s in langs.ALL_SUFFIXES:
+        if s != "swift":
+            for i in range(2 if tier == "quick" else 30):
+                jobs.append({"k": "gitdiff", "suffix": s, "i": i, "seed": seed})
     return jobs
 
 
@@ -98,9 +102,74 @@ def whole_file_diff(name, data):
     return ("diff --git a/%s b/%s\nnew file mode 100644\n--- /dev/null\n+++ b/%s\n@@ -0,0 +1,%d @@\n%s" % (name, name, name, len(lines), body)).encode("utf-8")
 
 
+def gitdiff_job(job, ctx):
+    """A committed well-nested file is damaged by deleting the whole line of one tag (or by adding a line with a stray tag); what
+    blockwatch gets is the real `git diff -U0/-U1/-U3` of that change."""
+    import re
+    suffix = job["suffix"]
+    lang_name = langs.SUFFIX_LANG[suffix]
+    lang = langs.LANGS[lang_name]
+    witness = job.get("witness")
+    r = rng("c12g", job.get("seed", 0), suffix, job.get("i", 0))
+    out = []
+    for rep in range(1 if witness else 4):
+        line_forms = [f.id for f in lang["forms"] if f.kind == "line"] or [f.id for f in lang["forms"]]
+        g = gen.gen_file(r, lang_name, gen.Opts(max_depth=2, max_blocks=5, layouts=("own",), forms=line_forms[:1], decoys=False, prose=False,
+                                               attrs_fn=lambda idx: [("name", "b%d" % idx)]))
+        name = r.choice(["", "sub/", "a/b/"]) + langs.file_name_for(suffix, "gd")
+        text = g.data.decode("utf-8")
+        lines = text.split("\n")
+        tags = [t for t in g.fb.tags if t.in_comment and t.comment.start_line == t.comment.end_line]
+        if witness:
+            name, lines = "pkg/w.py", ['# <block name="w">', "x = 1", "# </block>", "y = 2", ""]
+            tag_lines = [1]
+        else:
+            tag_lines = sorted({t.line for t in tags})
+        if not tag_lines:
+            continue
+        for ln in ([1] if witness else r.sample(tag_lines, min(3, len(tag_lines)))):
+            if sum(1 for t in g.fb.tags if t.in_comment and t.line == ln) != 1 and not witness:
+                continue          # two tags on that line: deleting it may keep the file balanced
+            new_lines = lines[:ln - 1] + lines[ln:]
+            ctxn = 0 if witness else r.choice([0, 0, 1, 3])
+            root = run.make_repo({name: "\n".join(lines)}, real_git=True, commit=True)
+            try:
+                run.write_files(root, {name: "\n".join(new_lines)})
+                diff = run.git(root, "diff", "-U%d" % ctxn)
+                res = run.run(ctx.bin("rel"), r.choice([[], ["list"]]), root, stdin=diff, env={})
+                scan = run.run(ctx.bin("rel"), ["list"], root, stdin=None, env=dict(TERM))
+            finally:
+                run.rm(root)
+            key = h([suffix, "gitdiff", "\n".join(new_lines), ctxn])
+            sets = {"suffix": [suffix], "damage_mode": ["delete-tag-line/git-diff-U%d" % ctxn], "tag_line": ["first" if ln == 1 else "later"]}
+            if res.cls == "wall-timeout" or scan.cls == "wall-timeout":
+                out.append(Case(INCONCLUSIVE, key=key, summary="wall timeout"))
+                continue
+            if scan.rc == 0:
+                # the grammar did not give blockwatch the comments as written (generator hiccup): nothing to conclude about diff mode
+                out.append(Case(INCONCLUSIVE, key=key, summary="damaged file %s passes a full scan; case skipped" % name))
+                continue
+            ok = res.rc != 0 and not bad_outcome(res) and name in res.err_text()
+            if ok:
+                out.append(Case(HELD, key=key, nontrivial=True, sets=sets, counters={"gitdiff_runs": 1}))
+                continue
+            emptied = bool(re.search(r"(?m)^@@ -\d+(,\d+)? \+0,0 @@", diff.decode("utf-8", "replace"))) and diff.count(b"\n@@ ") == 1
+            if res.rc == 0 and emptied and not res.err.strip():
+                sig = "C12/first-lines-deleted-U0"       # recorded finding: entry with a single `+0,0` hunk = deleted file
+            else:
+                sig = "C12/%s/delete-tag-line/git-diff" % ("silent-success" if res.rc == 0 else "crash-" + res.cls if bad_outcome(res) else "file-not-named")
+            out.append(Case(VIOLATED, key=key, nontrivial=True, sig=sig, sets=sets,
+                            summary="the tag line %d of %s was deleted (git diff -U%d): exit %s, stderr %s" % (ln, name, ctxn, res.rc, res.err_text()[:200]),
+                            witness={"files": {name: "\n".join(new_lines)[:3000]}, "diff": diff.decode("utf-8", "replace")[:3000],
+                                     "observed": res.brief(1500), "job": job}))
+    return out
+
+
 def run_job(job, ctx):
     if job.get("k") == "glued":
         return glued_job(job, ctx)
+    if job.get("k") == "gitdiff":
+        return gitdiff_job(job, ctx)
     suffix = job["suffix"]
     lang = langs.SUFFIX_LANG[suffix]
     r = rng("c12", job["seed"], suffix, job["i"])
